@@ -69,7 +69,7 @@ def main():
                 if "expr" in spec:      # only the selected expression of the last statement belongs to the kernel
                     node = stmts[-1]
                     for attr in spec["expr"].split("."):
-                        node = getattr(node, attr)
+                        node = node[int(attr)] if attr.isdigit() else getattr(node, attr)
                     region = stmts[:-1] + [ast.Expr(value=node)]
                 else:
                     region = stmts
